@@ -559,6 +559,9 @@ def invalid_table(t, nodes, other, onodes, typed_t, tnodes):
     yield "add untyped tree to typed tree", lambda: typed_t.add(t)
     yield "typed move_to", lambda: tnodes[0].move_to(typed_t)
     yield "typed bad kind", lambda: typed_t.add("NEW", kind=123)
+    yield "typed: deep copy of an untyped branch whose data objects have a non-str `kind` attribute", lambda: _fwd_branch_into_typed(typed_t)
+    yield "typed: kind omitted and the class default is not a str", lambda: typed_t.add("NEW-nokind")
+    yield "typed: kind omitted and the class default is not a str (node)", lambda: tnodes[0].add("NEW-nokind")
     yield "typed before=node of other parent", lambda: tnodes[0].add("NEW", kind="k", before=tnodes[0])
     yield "typed: add tree colliding at 2nd node (other kind)", lambda: _collide_typed_tree(typed_t, tnodes)
     yield "typed: copy_to(add_self=False) colliding at 2nd child (other kind)", lambda: _collide_typed_children(typed_t, tnodes)
@@ -578,6 +581,28 @@ def typed_or_int_rename(t):
         n.rename("x")
     finally:
         n.remove()
+
+
+def _fwd_branch_into_typed(typed_t):
+    import enum
+
+    from nutree import Tree
+
+    class K(enum.Enum):
+        A = 1
+
+    class D:
+        def __init__(self, name, kind):
+            self.name, self.kind = name, kind
+
+        def __repr__(self):
+            return f"D({self.name})"
+
+    src = Tree("fwd", forward_attrs=True, calc_data_id=lambda tree, d: d.name)
+    top = src.add(D("fwd-top", "ok"))
+    top.add(D("fwd-1", "ok")).add(D("fwd-11", K.A))
+    top.add(D("fwd-2", K.A))
+    typed_t.add(top, kind="k", deep=True)
 
 
 def _with_child(a):
@@ -651,7 +676,10 @@ def run_table_case(case, res):
                     nodes = [t.add("only")]
                 other = Tree("other")
                 onodes = [other.add("o1"), other.add("o2")]
-                tt = TypedTree("typed")
+                class NoDefaultKindTree(TypedTree):
+                    DEFAULT_CHILD_TYPE = None  # a subclass that wants every caller to state the kind
+
+                tt = NoDefaultKindTree("typed")
                 tn = [tt.add("t1", kind="k"), tt.add("t2", kind="k")]
                 return t, nodes, other, onodes, tt, tn
 
